@@ -185,8 +185,13 @@ Definition failed_map (ds : dataset) (rq : request) : list (str * str) :=
 Definition contributes (rq : request) (bk : backend) : bool :=
   is_sites_table (rq_table rq) || b_avail bk.
 
+(** what grouping, sorting and aggregation read: like [get], but a column the
+    backend does not provide reads as its empty value (DataRow.GetString / GetFloat) *)
+Definition get_chk (schema : list tschema) (bk : backend) (t : tschema) (td : tdata) (r : list value) (c : column) : value :=
+  if has_flag (b_flags bk) (c_opt c) then get schema bk t td r c else empty_value (c_type c).
+
 (** *** statistics *)
-Record acc := mkAcc { a_val : Z; a_cnt : Z; a_set : bool }.   (* milli units; a_set: min/max seen a value *)
+Record acc := mkAcc { a_val : Z; a_cnt : Z }.   (* milli units; a_cnt = 0: nothing seen yet *)
 
 Definition float_of (v : value) : Z :=
   match v with VFloat m => m | VInt z => (z * 1000)%Z | _ => 0%Z end.
@@ -196,23 +201,25 @@ Definition stat_spec (schema : list tschema) (rq : request) (bk : backend) (td :
   match st with
   | SCounter f =>
       let n := Z.of_nat (length (filter (fun r => sem (mkctx schema bk (rq_table rq) td r) f) rows)) in
-      mkAcc (n * 1000) n true
+      mkAcc (n * 1000) n
   | SAgg k c =>
-      let vals := map (fun r => float_of (get schema bk (rq_table rq) td r c)) rows in
+      let vals := map (fun r => float_of (get_chk schema bk (rq_table rq) td r c)) rows in
       let n := Z.of_nat (length vals) in
       match k with
-      | AgSum | AgAvg => mkAcc (fold_right Z.add 0%Z vals) n true
-      | AgMin => match vals with [] => mkAcc 0 0 false | v :: vs => mkAcc (fold_right Z.min v vs) n true end
-      | AgMax => match vals with [] => mkAcc 0 0 false | v :: vs => mkAcc (fold_right Z.max v vs) n true end
+      | AgSum | AgAvg => mkAcc (fold_right Z.add 0%Z vals) n
+      | AgMin => match vals with [] => mkAcc 0 0 | v :: vs => mkAcc (fold_right Z.min v vs) n end
+      | AgMax => match vals with [] => mkAcc 0 0 | v :: vs => mkAcc (fold_right Z.max v vs) n end
       end
   end.
 
 (** merging the accumulators of two row sets (Filter.ApplyValue in MergeStats) *)
 Definition merge_acc (k : option aggk) (a b : acc) : acc :=
   match k with
-  | None | Some AgSum | Some AgAvg => mkAcc (a_val a + a_val b) (a_cnt a + a_cnt b) true
-  | Some AgMin => if a_set a then (if a_set b then mkAcc (Z.min (a_val a) (a_val b)) (a_cnt a + a_cnt b) true else a) else b
-  | Some AgMax => if a_set a then (if a_set b then mkAcc (Z.max (a_val a) (a_val b)) (a_cnt a + a_cnt b) true else a) else b
+  | None | Some AgSum | Some AgAvg => mkAcc (a_val a + a_val b) (a_cnt a + a_cnt b)
+  | Some AgMin => if Z.eqb (a_cnt a) 0 then b else if Z.eqb (a_cnt b) 0 then a
+                  else mkAcc (Z.min (a_val a) (a_val b)) (a_cnt a + a_cnt b)
+  | Some AgMax => if Z.eqb (a_cnt a) 0 then b else if Z.eqb (a_cnt b) 0 then a
+                  else mkAcc (Z.max (a_val a) (a_val b)) (a_cnt a + a_cnt b)
   end.
 
 Definition stat_kind (st : stat) : option aggk := match st with SCounter _ => None | SAgg k _ => Some k end.
@@ -224,13 +231,33 @@ Definition show_value (v : value) : str :=
   | VInt z => show_Z z
   | VFloat m => show_milli m
   | VStrList l => join [0] l
-  | VIntList l => join [0] (map show_Z l)
+  | VIntList l => [91] ++ join [0] (map show_Z l) ++ [93]     (* fmt.Sprint of the slice, blanks -> NUL *)
   | VPairs _ => []
   | VRows _ => []
   end.
 
+(** text of the empty value (fmt "%v" of Column.GetEmptyValue): lists print as [] *)
+Definition show_empty (t : dtype) : str :=
+  match t with
+  | TStrList | TInt64List | TSvcMemberList | TIfaceList => [91; 93]
+  | TCustVar => s "map[]"
+  | TJSON => s "{}"
+  | _ => show_value (empty_value t)
+  end.
+
+Definition ref_missing (schema : list tschema) (bk : backend) (t : tschema) (td : tdata) (r : list value) (c : column) : bool :=
+  match c_store c, c_ref c with
+  | SRef, Some (rtn, _) => match find_ref schema bk t td r rtn with Some _ => false | None => true end
+  | _, _ => false
+  end.
+
+(** DataRow.GetString as used for group keys and string sort keys *)
+Definition key_text (schema : list tschema) (bk : backend) (t : tschema) (td : tdata) (r : list value) (c : column) : str :=
+  if negb (has_flag (b_flags bk) (c_opt c)) || ref_missing schema bk t td r c then show_empty (c_type c)
+  else show_value (get schema bk t td r c).
+
 Definition stats_key (schema : list tschema) (rq : request) (bk : backend) (td : tdata) (r : list value) : list str :=
-  map (fun c => show_value (get schema bk (rq_table rq) td r c)) (request_columns rq).
+  map (key_text schema bk (rq_table rq) td r) (request_columns rq).
 
 (** final value of one statistics column (finalStatsApply): milli units, or an
     exact quotient for averages *)
@@ -248,11 +275,11 @@ Inductive keyval := KNum (m : Z) | KStr (x : str) | KCv (x : str).
 
 Definition sort_key (schema : list tschema) (rq : request) (bk : backend) (td : tdata) (r : list value) (k : sortkey) : keyval :=
   let c := sk_col k in
-  let v := get schema bk (rq_table rq) td r c in
+  let v := get_chk schema bk (rq_table rq) td r c in
   match c_type c with
   | TInt | TInt64 | TFloat => KNum (float_of v)
   | TCustVar => KCv (lookup_pair (sk_args k) (as_pairs v))
-  | _ => KStr (show_value v)
+  | _ => KStr (key_text schema bk (rq_table rq) td r c)
   end.
 
 (** three-way comparison of one key in ascending direction *)
@@ -381,20 +408,20 @@ Definition data_result_spec (schema : list tschema) (cfg : config) (ds : dataset
 
 (** *** statistics, implementation: row by row accumulation (DataRow.CountStats,
     Filter.ApplyValue), per backend, then merged per key (Response.MergeStats) *)
-Definition acc0 : acc := mkAcc 0 0 false.
+Definition acc0 : acc := mkAcc 0 0.
 
 Definition apply_value (k : option aggk) (a : acc) (v : Z) (cnt : Z) : acc :=
   match k with
-  | None => mkAcc (a_val a + cnt * 1000) (a_cnt a + cnt) true
-  | Some AgSum | Some AgAvg => mkAcc (a_val a + v) (a_cnt a + cnt) true
-  | Some AgMin => mkAcc (if a_set a then Z.min (a_val a) v else v) (a_cnt a + cnt) true
-  | Some AgMax => mkAcc (if a_set a then Z.max (a_val a) v else v) (a_cnt a + cnt) true
+  | None => mkAcc (a_val a + cnt * 1000) (a_cnt a + cnt)
+  | Some AgSum | Some AgAvg => mkAcc (a_val a + v) (a_cnt a + cnt)
+  | Some AgMin => mkAcc (if Z.eqb (a_cnt a) 0 then v else Z.min (a_val a) v) (a_cnt a + cnt)
+  | Some AgMax => mkAcc (if Z.eqb (a_cnt a) 0 then v else Z.max (a_val a) v) (a_cnt a + cnt)
   end.
 
 Definition count_row (x : rowctx) (st : stat) (a : acc) : acc :=
   match st with
   | SCounter f => if match_filter x f false then apply_value None a 0 1 else a
-  | SAgg k c => apply_value (Some k) a (float_of (ctx_get x c)) 1
+  | SAgg k c => apply_value (Some k) a (float_of (get_chk (x_schema x) (x_bk x) (x_table x) (x_data x) (x_row x) c)) 1
   end.
 
 Fixpoint map2 {A B C} (f : A -> B -> C) (l1 : list A) (l2 : list B) : list C :=
